@@ -22,6 +22,8 @@ RULE = ('cases = random call histories (length 6..14) per estimator (all 17) '
         'state-changing operation a fresh clone that replays only the last '
         'fit and the threshold operations since must agree with the object '
         '(M, threshold_, bounds_, n_features_in_, probe distances). Online '
+        'half of the histories pass every caller-owned buffer '
+        'write-protected (a write raises even if it is undone later). Online '
         'monitors on every API call compare the bytes of all arguments, of '
         'get_params() values and (query methods) of vars(estimator) before '
         'and after. Handed-out metric functions and matrices are re-queried '
@@ -46,7 +48,8 @@ def cases(tier, seed):
       r = rng_for('c17', seed, name, h)
       out.append({'est': name, 'hseed': int(r.randint(2**31 - 1)),
                   'length': int(r.randint(6, 15)),
-                  'prep': bool(h % 3 == 2), 'variant': h})
+                  'prep': bool(h % 3 == 2), 'variant': h,
+                  'ro': bool(h % 2 == 1)})
   return _with_repotests(out, tier)
 
 
@@ -63,7 +66,8 @@ def required(tier):
   return {'C17.history-independent': 3 * n, 'C17.repeat-fit': n // 3,
           'C17.handed-out-metric-stable': n, 'C17.handed-out-matrix-stable': n // 2,
           'C17.returned-matrix-is-a-copy': n // 2, 'C17.pickle': n // 3,
-          'G.C17.args': 20 * n, 'G.C17.params': 20 * n, 'G.C17.state': 10 * n}
+          'G.C17.args': 20 * n, 'G.C17.params': 20 * n, 'G.C17.state': 10 * n,
+          'C17.no-write-into-arguments': n // 2}
 
 
 def _probe(est, Q):
@@ -157,8 +161,21 @@ def run_case(spec, j):
       kwargs['bounds'] = np.array([0.0 if i == 1 else 0.5, 3.0]) * ds['d']
     if name == 'LSML' and spec['variant'] % 2 == 0:
       kwargs['weights'] = rng.uniform(0.5, 2.0, size=len(f.args[0]))
-    fits.append({'ds': ds, 'params': f.est.get_params(deep=False),
-                 'args': f.args, 'kwargs': kwargs, 'X': np.asarray(ds['X'])})
+    params_i = f.est.get_params(deep=False)
+    args_i = f.args
+    if spec.get('ro'):
+      # M-RO: every caller-owned buffer is write-protected, so that even a
+      # write that is undone later (invisible to fingerprints) raises
+      def ro(a):
+        if isinstance(a, np.ndarray):
+          a = np.array(a, copy=True)
+          a.setflags(write=False)
+        return a
+      args_i = tuple(ro(a) for a in args_i)
+      kwargs = {k_: ro(v) for k_, v in kwargs.items()}
+      params_i = {k_: ro(v) for k_, v in params_i.items()}
+    fits.append({'ds': ds, 'params': params_i,
+                 'args': args_i, 'kwargs': kwargs, 'X': np.asarray(ds['X'])})
   est = E.cls(name)(**fits[0]['params'])
   det = {'est': name, 'hseed': spec['hseed'], 'prep': spec['prep']}
   overrides = {}
@@ -342,11 +359,18 @@ def run_case(spec, j):
       if name in ('SDML', 'SDML_Supervised') and isinstance(e, RuntimeError):
         j.skip('C17', 'sdml-solver-failure')
         return
+      if 'read-only' in str(e):
+        j.violated('C17.no-write-into-arguments',
+                   dict(det, op=op, ops=ops[-8:], raised=repr(e)[:300]),
+                   mechanism='writes-into-read-only-argument')
+        return
       j.violated('C17.history-runs',
                  dict(det, op=op, ops=ops[-8:], raised=repr(e)[:300]),
                  mechanism='history-raised-' + type(e).__name__)
       return
   check_handed()
+  if spec.get('ro'):
+    j.ok('C17.no-write-into-arguments')
   if len(fitted_sets) >= 2:
     j.distinct(name, spec['hseed'])
   if j.sample is None:
